@@ -2,6 +2,7 @@ package avro
 
 import (
 	"fmt"
+	"math"
 	"reflect"
 	"unsafe"
 )
@@ -31,6 +32,12 @@ func (rc *arrayCodec) Read(r *ReadBuf, p unsafe.Pointer) error {
 			if _, err := r.Varint(); err != nil {
 				return fmt.Errorf("failed to read block size for array. %w", err)
 			}
+		}
+
+		// Like other Avro implementations we limit collections to 2^31-1 items. This also keeps the length
+		// arithmetic below from overflowing (a negated minimum count stays negative and is rejected here too).
+		if count < 0 || count > math.MaxInt32-int64(sh.Len) {
+			return fmt.Errorf("array block count %d out of range", count)
 		}
 
 		// If our array is nil or undersized then we can fix it up here.
